@@ -87,6 +87,18 @@ def quoted_slots(fmt):
     return out
 
 
+def _only_drops_unset(gen):
+    """no filter, or one that can be false only for an argument whose value is None (`a.value is not None [or ...]`): None is not
+    a value the command-file syntax can express, so nothing the loader could read back is left out"""
+    if not gen.ifs:
+        return True
+    if len(gen.ifs) != 1 or not isinstance(gen.target, ast.Name):
+        return False
+    t = gen.ifs[0]
+    alts = t.values if isinstance(t, ast.BoolOp) and isinstance(t.op, ast.Or) else [t]
+    return any(isinstance(a, ast.Compare) and len(a.ops) == 1 and isinstance(a.ops[0], ast.IsNot) and K.src(a.left) == "%s.value" % gen.target.id and isinstance(a.comparators[0], ast.Constant) and a.comparators[0].value is None for a in alts)
+
+
 def float_printer(funcs):
     """A branch `if isinstance(v, float): t = repr(v); [if "a" in t and "b" not in t: t = t.replace(x, y)]*; return t` in the
     serialiser -> (line, [(chars that must be present, chars that must be absent, x, y), ...]); None when floats take the generic path."""
@@ -380,7 +392,7 @@ def run(ctx, idx):
     ok = False
     for f in funcs:
         for n in own_nodes(f.node):
-            if isinstance(n, (ast.GeneratorExp, ast.ListComp)) and isinstance(n.generators[0].iter, ast.Attribute) and n.generators[0].iter.attr == "arguments" and not n.generators[0].ifs and len(n.generators) == 1 and isinstance(n.generators[0].target, ast.Name):
+            if isinstance(n, (ast.GeneratorExp, ast.ListComp)) and isinstance(n.generators[0].iter, ast.Attribute) and n.generators[0].iter.attr == "arguments" and _only_drops_unset(n.generators[0]) and len(n.generators) == 1 and isinstance(n.generators[0].target, ast.Name):
                 e = n.elt
                 tv = n.generators[0].target.id
                 if isinstance(e, ast.Call) and isinstance(e.func, ast.Attribute) and e.func.attr == "format" and e.args and isinstance(e.args[0], ast.Attribute) and e.args[0].attr == "name" and isinstance(e.args[0].value, ast.Name) and e.args[0].value.id == tv:
